@@ -223,6 +223,31 @@ pub fn main(args: &[String]) {
     let n = arg_u64(args, "--n", 1000) as usize;
     let mut tr = Trace::create(out);
     let mut rng = Rng::new(seed ^ 0x07);
+    // aimed: statements that differ ONLY in one component of a quoted triple (which holds blank nodes), compared with a copy whose
+    // labels are renamed so that their order is reversed (b0 -> z9, b1 -> z8 ...): an order on quoted triples that ignores a component
+    // leaves such statements tied, and the tie is broken differently on the two sides
+    for i in 0..n / 10 {
+        let p = iri("http://ex/p");
+        let k = 2 + rng.below(2);
+        let mut d: Vec<Q> = vec![];
+        for j in 0..k {
+            let varying = lit_dt(&format!("o{j}"), &format!("{XSD}string"));
+            let qt = match i % 3 {
+                0 => quoted(bn(&format!("b{j}")), p.clone(), varying),                  // differ in the object
+                1 => quoted(varying, p.clone(), bn(&format!("b{j}"))),                  // differ in the subject
+                _ => quoted(bn(&format!("b{j}")), p.clone(), quoted(bn("b0"), p.clone(), varying)),   // differ one level down
+            };
+            let q: Q = if i % 2 == 0 { ([qt, p.clone(), iri("http://ex/a")], None) } else { ([iri("http://ex/a"), p.clone(), qt], if i % 4 == 1 { Some(iri("http://ex/g")) } else { None }) };
+            d.push(q);
+        }
+        let f: HashMap<String, String> = (0..k).map(|j| (format!("b{j}"), format!("z{}", 9 - j))).collect();
+        let mut r: Vec<Q> = d.iter().map(|q| rename_q(q, &f)).collect();
+        if i % 2 == 1 {
+            r.reverse();
+        }
+        emit(&mut tr, "relabel", &d, &r);
+        emit(&mut tr, "self", &d, &d);
+    }
     for i in 0..n {
         let star = i % 3 != 0;
         let d = rand_dataset(&mut rng, star, i % 4 == 0, i % 2 == 0);
